@@ -220,7 +220,8 @@ def transform_expression(
     symbolic_vars = {**symbols_to_use} if symbols_to_use else {}
     for var in pddl_variables:
         if var not in symbolic_vars:
-            symbolic_vars[var] = symbols(re.sub(r"[\(\-\)\s\?]", "", var))
+            # the prefix keeps the name from being a python keyword ("(d e f)" -> def, "(i s)" -> is).
+            symbolic_vars[var] = symbols("f_" + re.sub(r"[\(\-\)\s\?]", "", var))
 
     formatted_expression = expression
     for var, sym in symbolic_vars.items():
